@@ -138,6 +138,24 @@ NEEDS = {
     "C27r-1": ("C27", "second round: nested list with an empty / all-null inner list next to a non-empty one (same mechanism as C27-1, written independently)"),
     "C27r-2": ("C27", "second round: one query that uses the same parameterised edge on the same type twice with different parameter values (converted parameters cached by (type, edge))"),
     "C27r-3": ("C27", "second round: a Python string ARGUMENT containing a lone surrogate (os.fsdecode of undecodable bytes): silently rewritten with U+FFFD instead of rejected"),
+    "C01t-1": ("C01", "third round: same defect as C22-2 (nested fold's count output not seen by the early-exit eligibility check), judged against the declarative semantics"),
+    "C01t-2": ("C01", "third round: nullable edge parameter with a declared default receives null (same mechanism as C01-1, written independently)"),
+    "C01t-3": ("C01", "third round: a fold below a missing @optional inside a non-empty outer fold outputs [] instead of null (same mechanism as C01-2, written independently)"),
+    "C02t-1": ("C02", "third round: stale 'tag source exists' flag across resolve_property (same mechanism as C02r-1, written independently)"),
+    "C02t-2": ("C02", "third round: a fold-count filter with a static maximum, a filter inside the fold that removes elements, a row with #neighbours > max >= #surviving, and adapters that differ in whether their iterators propagate size_hint (upper bound misread as lower bound)"),
+    "C02t-3": ("C02", "third round: a @fold with outputs whose count filter takes a %tag (an adapter call between the two fold stages), adjacent rows alternating empty / non-empty folds, read-ahead >= 3 at that call"),
+    "C09t-1": ("C09", "third round: fold-count filter `>` with the exact argument u64::MAX in an overflow-checked build (saturating_add replaced by +)"),
+    "C09t-2": ("C09", "third round: two different outer tags used alternately (%t, %s, %t) inside one fold: imported_tags = [t, s, t], second removal panics at run time"),
+    "C09t-3": ("C09", "third round: a tag on a list-of-String property used as the operand of a string operator (right-operand check lost is_list()): unreachable!() at run time"),
+    "C10t-1": ("C10", "third round: failed fold leaves the tag import stack out of step (same mechanism as C10-2 / C10r-1, written independently)"),
+    "C10t-2": ("C10", "third round: early return on bad folded-edge parameters skips closing the output scope (same mechanism as C10r-2, written independently)"),
+    "C10t-3": ("C10", "third round: @filter operand whose first character is multi-byte in UTF-8 (empty operand handled; same family as C10-1)"),
+    "C11t-1": ("C11", "third round: folds nested >= 2 deep with a filter-less intermediate fold and a variable used only in the inner fold's filter or count filter (not recorded / not narrowed)"),
+    "C11t-2": ("C11", "third round: the same tag used in two different folds: only the first fold imports it (same mechanism as C11-1, written independently)"),
+    "C11t-3": ("C11", "third round: one variable used in two filters whose inferred types are lists nested >= 2 deep differing in nullability at depth >= 2, looser use first: Type::intersect flat below the first list level; frontend::parse then PANICS (so no IR exists for C11 to inspect: detected by C17's lattice laws and by C10)"),
+    "C21t-1": ("C21", "third round: implicit recursion coercion names the wrong source type (same mechanism as C21-1 / C21r-2, written independently)"),
+    "C21t-2": ("C21", "third round: a tag on vertex P used inside a @fold that expands from P, with a sibling non-folded edge written before the fold that leads to a vertex of another type (activate_vertex skipped for the fold's own parent)"),
+    "C21t-3": ("C21", "third round: implicit coercion target a strict ancestor of the source type, recursion depth >= 2, a depth-1 vertex of the ancestor type but not the source type (resolve_neighbors names the source type)"),
     "C22-1": ("C22", "a lower-bound count filter (>= / >) together with a != / not_one_of filter on the same fold count, both with variables, nothing observing the fold, fold larger than the bound"),
     "C22-2": ("C22", "an outer fold with only lower-bound count filters whose only observed content is a nested fold's count @output, outer fold larger than the bound"),
 }
